@@ -288,8 +288,9 @@ func normalizeVaryHeaderSeq2(vary string, reqHeader http.Header) iter.Seq2[strin
 			value := ""
 			// an empty value is valid and means "no variation"
 			if len(values) > 0 {
-				// NOTE: The policy of this cache is to use just the first header line
-				value = normalizeHeaderValue(name, values[0])
+				// Several field lines are equivalent to one line with the values
+				// joined by commas (RFC 9110 §5.3, RFC 9111 §4.1).
+				value = normalizeHeaderValue(name, strings.Join(values, ","))
 			}
 			if !yield(name, value) {
 				return
